@@ -501,6 +501,7 @@ def process_fn(unit, lines, i, arg, rel_tpl):
     sections = [('spec', None, [])]
     renames = dict(unit.filerename.get(rel, {}))
     subs = []
+    attrs = []
     while j < len(lines) and lines[j].strip() != '//@end':
         s = lines[j].strip()
         if s.startswith('//@loop'):
@@ -512,6 +513,8 @@ def process_fn(unit, lines, i, arg, rel_tpl):
             sections.append(('atstart', None, []))
         elif s.startswith('//@atend'):
             sections.append(('atend', None, []))
+        elif s.startswith('//@attr'):
+            attrs.append(s[len('//@attr'):].strip())
         elif s.startswith('//@rename'):
             renames.update(dict(p.split('=') for p in s.split()[1:]))
         elif s.startswith('//@sub'):
@@ -566,6 +569,13 @@ def process_fn(unit, lines, i, arg, rel_tpl):
         body = tokens_rename(body, {'self': 'self_'}, {})
         prefix = ' let mut self_ = self;'
         st['R2_mut_self'] = st.get('R2_mut_self', 0) + 1
+    # R2b: `mut x: T` by-value parameters -> `x: T` + `let mut x = x;` (contracts then speak about the entry value)
+    for mm in list(re.finditer(r'([(,]\s*)mut\s+(\w+)\s*:', sig)):
+        if mm.group(2) == 'self':
+            continue
+        prefix += ' let mut %s = %s;' % (mm.group(2), mm.group(2))
+        st['R2_mut_param'] = st.get('R2_mut_param', 0) + 1
+    sig = re.sub(r'([(,]\s*)mut\s+(?!self\b)(\w+)\s*:', r'\1\2:', sig)
     if newname:
         sig = re.sub(r'\bfn\s+' + name + r'\b', 'fn ' + newname, sig, count=1)
     sig = re.sub(r'^(\s*)pub\(crate\)\s+', r'\1pub ', sig)
@@ -611,6 +621,9 @@ def process_fn(unit, lines, i, arg, rel_tpl):
 
     fn_rec = {'name': newname or name, 'impl': impl_hdr, 'file': rel, 'line': src_line, 'out_start': unit.cur_line(),
               'props': [], 'labels': [], 'mode': 'total' if total else mode, 'spec': '%s:%d' % (rel_tpl, i + 1)}
+    for at in attrs:
+        unit.emit(at, rel_tpl)
+    fn_rec['out_start'] = unit.cur_line()
     unit.emit(sig, '%s:%d' % (rel, src_line))
     for l, lno in sections[0][2]:
         mm = LABEL_RX.search(l)
